@@ -27,7 +27,9 @@ fn main() {
     "replay" => (Tier::Quick, Some(args.get(3).cloned().unwrap_or_else(|| usage()))),
     _ => usage(),
   };
-  let ctx = Ctx { tier, seed, verif_dir, threads };
+  let sub = args.iter().any(|a| a == "--sub");
+  vcheck::runner::start_watchdog();
+  let ctx = Ctx { tier, seed, verif_dir, threads, sub };
   let code = vcheck::props::dispatch(&id, &ctx, replay.as_deref());
   std::process::exit(code);
 }
